@@ -73,6 +73,7 @@ DPrefix == UNION {{ [f |-> File1(c), e |-> Expect({"InvalidAttributePrefix"}), w
 DupFams == { <<"plain", "p">>, <<"id", "">>, <<"class", "">>, <<"style", "">>, <<"slot", "">>, <<"data:", "k">>, <<"data-", "k">>,
              <<"mark:", "k">>, <<"model:", "v">>, <<"change:", "p">>, <<"worklet:", "w">>, <<"generic:", "g">>,
              <<"extra-attr:", "e">>, <<"slot:", "x">>, <<"class:", "on">>, <<"style:", "color">> }
+           \* (not the event families: the same event bound twice registers two listeners - the unit test event_listener pins it)
 DDup == UNION {{ [f |-> File1(c), e |-> Expect({"DuplicatedAttribute", "InvalidAttribute"}), w |-> "duplicated attribute " \o fn[1]] :
                    c \in Ctx(Elem("v", <<Attr(fn[1], fn[2], IF fn[1] \in {"worklet:", "generic:", "extra-attr:", "slot:"} THEN SV("s1") ELSE EV(EA)),
                                          Attr(fn[1], fn[2], IF fn[1] \in {"worklet:", "generic:", "extra-attr:"} THEN SV("s2") ELSE IF fn[1] = "slot:" THEN SV("s1") ELSE SV("s2"))>>, <<>>)) } :
